@@ -32,7 +32,7 @@ def strategy(tier):
     cached = graph.graph_case(max_tasks=8 if tier == "quick" else 12, outcomes="some", max_bad=2, kind_weights=(2, 6, 1, 0),
                               tape_max=50, tape_hi=31, p_par=0.875, p_seed_den=2, densities=("dense", "sparse"),
                               jobs=(None, 2, 3, 3, 4), flags=())
-    virtual = st.one_of(general, general, cached, graph.layered_case(flags=("again",), p_fail_den=6))
+    virtual = st.one_of(general, general, cached, graph.layered_case(flags=("again",), p_fail_den=6), graph.sandwich_case())
     real = st.one_of(reallayer.real_case(flags=("again",)), reallayer.real_case(layered=True))
     return reallayer.mixed(virtual, real)
 
